@@ -14,5 +14,8 @@ CONSTANTS
   BodyForms = {"plain"}
   FnPositions = {"mixed"}
   NoDups = FALSE
+  ModShapes = {"single", "sub"}
+  SubFnNames = {}
+  RunMods = {""}
 INVARIANTS MCInv Emit
 CHECK_DEADLOCK FALSE
